@@ -46,6 +46,16 @@ static int ds_skip(void *handle, size_t bytes)
 	d->pos = d->len;
 	return 0;
 }
+/* a skip callback that REFUSES a skip beyond the end of its data without moving ("zero for failure" is all the interface
+   asks of it): what follows a refused skip is still unread.  C only: the extracted model has no such kind */
+static int ds_skip_stay(void *handle, size_t bytes)
+{
+	DrvStream *d = handle;
+	++d->skips;
+	if (bytes <= d->len - d->pos) { d->pos += bytes; return 1; }
+	return 0;
+}
+static const LHAInputStreamType ds_type_skip_stay = { ds_read, ds_skip_stay, NULL };
 static const LHAInputStreamType ds_type_skip = { ds_read, ds_skip, NULL };
 static const LHAInputStreamType ds_type_noskip = { ds_read, NULL, NULL };
 
@@ -54,6 +64,7 @@ static int drv_stream_open(DrvStream *d, const char *kind, const char *hx)
 	memset(d, 0, sizeof(*d));
 	d->data = unhex_alloc(hx, &d->len, 0);
 	if (!strcmp(kind, "cbskip")) { d->is_cb = 1; DRV_ALLOC_BEGIN(); d->stream = lha_input_stream_new(&ds_type_skip, d); }
+	else if (!strcmp(kind, "cbskipstay")) { d->is_cb = 1; DRV_ALLOC_BEGIN(); d->stream = lha_input_stream_new(&ds_type_skip_stay, d); }
 	else if (!strcmp(kind, "cbnoskip")) { d->is_cb = 1; DRV_ALLOC_BEGIN(); d->stream = lha_input_stream_new(&ds_type_noskip, d); }
 	else if (!strcmp(kind, "file")) {
 		static unsigned serial;           /* two streams of one process must not share the file */
